@@ -167,7 +167,9 @@ def decode(kind, h, content, parms, loop, persistent=False):
             return {"twins_disagree": True, "seq": -1, "changes": [], "acks": -1}
         return outs[0]
     h.handle(content, parms)
-    if k in ("vers_req", "chan_req", "file_req", "wc_req", "rem_req", "fw_req"):
+    if k == "wc_req":
+        return {"seq": h._sequence, "schedule": bool(h.schedule)}
+    if k in ("vers_req", "chan_req", "file_req", "rem_req", "fw_req"):
         return {"seq": h._sequence}
     if k == "vers_resp":
         return {"en": [h.en_build, h.en_major, h.en_minor], "co": [h.co_build, h.co_major, h.co_minor]}
@@ -362,6 +364,10 @@ def run(ctx):
                         hp = persistent[owner]
                         if kind == "rem_resp":
                             hp.reminders = []       # a reminders handler is single-use by design
+                        if kind == "wc_req" and (len(recs) % 2 == 0):
+                            # history of the long-lived instance: the other request verb it accepts (a schedule
+                            # request, for which the library has no builder) came in before this mode request
+                            hp.handle(b"REQWC" + bytes([len(recs) % 256]), ph.parms)
                         rec["dec2"] = decode(kind, hp, content, ph.parms, loop, persistent=True)
             else:
                 hh = persistent.setdefault("Hello", d.GeckoHelloProtocolHandler(b""))
